@@ -4,6 +4,7 @@ CONSTANTS
   MaxD = 2
   Depth = 4
   Rich = FALSE
+  Shaped = FALSE
   FormLevel = 0
 INVARIANT InvCoherent
 PROPERTY RefusalIsNoOp
